@@ -102,6 +102,11 @@ type libOp struct {
 type libScenario struct {
 	Hash string      `json:"hash"`
 	Keys [][2]string `json:"keys"` // hex rsum, dsum
+	// Arena: the caller keeps all its digests in one buffer, root digest
+	// first, and hands the library slices of it (a table of keys read from
+	// an index file, digests computed into a reused scratch buffer): every
+	// slice has spare capacity, and what lies behind it is the caller's.
+	Arena bool `json:"arena,omitempty"`
 	Ops  []libOp     `json:"ops"`
 }
 
@@ -159,6 +164,64 @@ type libRun struct {
 	lastLog   []simos.WriteRec
 	lastPre   []byte
 	lastPreOK bool
+	keys0     [][2][]byte // the digests as the scenario gives them
+	arena     []byte // the caller's buffer of digests (scenario.Arena)
+	arena0    []byte // what it held when the scenario started
+}
+
+// arg is a digest as the caller hands it to the library: a private copy, or
+// the caller's own slice of its arena.
+func (r *libRun) arg(b []byte) []byte {
+	if r.sc.Arena {
+		return b
+	}
+	return append([]byte(nil), b...)
+}
+
+// callerMemory looks at the caller's buffer of digests after a library call.
+// When the library wrote into it, the slices the caller holds for one key
+// may now spell another: if opening with them is then given that other key's
+// entry, the caller reads an entry "keyed for a different digest" - the
+// violation. A write without that consequence is tallied. The buffer is put
+// right again either way.
+func (r *libRun) callerMemory(call string, mk func() *libScenario) {
+	if !r.sc.Arena || bytes.Equal(r.arena, r.arena0) {
+		return
+	}
+	at := 0
+	for at < len(r.arena) && r.arena[at] == r.arena0[at] {
+		at++
+	}
+	reported := false
+	for j := range r.keys {
+		if bytes.Equal(r.keys[j][0], r.keys0[j][0]) && bytes.Equal(r.keys[j][1], r.keys0[j][1]) {
+			continue
+		}
+		for i := range r.keys0 {
+			if i == j || !bytes.Equal(r.keys[j][0], r.keys0[i][0]) || !bytes.Equal(r.keys[j][1], r.keys0[i][1]) {
+				continue
+			}
+			var oerr error
+			r.inProc(simos.ProcSpec{}, func() {
+				f, err := cache.Open(libCacheDir, r.h, r.keys[j][0], r.keys[j][1])
+				oerr = err
+				if f != nil {
+					f.Close()
+				}
+			})
+			if oerr == nil && !reported {
+				reported = true
+				r.violate("opened-other-key", call, fmt.Sprintf("the caller keeps the digests of its %d keys in one buffer (%d bytes, each digest once) and hands the library slices of it; %s wrote behind a slice it was given (the buffer differs from byte %d on), so that the slices the caller holds for key %d now spell key %d - and Open with them succeeds: the caller is given the entry of a key it did not ask for", len(r.keys), len(r.arena), call, at, j, i), mk())
+			}
+		}
+	}
+	if !reported {
+		if r.res.Extended == nil {
+			r.res.Extended = map[string]int{}
+		}
+		r.res.Extended["caller-memory-written-without-a-wrong-entry:"+call]++
+	}
+	copy(r.arena, r.arena0)
 }
 
 func newLibRun(sc *libScenario, res *core.Result) *libRun {
@@ -167,10 +230,30 @@ func newLibRun(sc *libScenario, res *core.Result) *libRun {
 	r.w.MkdirAllRaw(libCacheDir)
 	r.w.MkdirAllRaw("/tmp")
 	r.h = newHashByName(sc.Hash)
+	// the arena holds every distinct digest once, in order of first use
+	place := map[string][2]int{}
+	if sc.Arena {
+		for _, k := range sc.Keys {
+			for _, hx := range k {
+				if _, ok := place[hx]; !ok {
+					d, _ := hex.DecodeString(hx)
+					place[hx] = [2]int{len(r.arena), len(r.arena) + len(d)}
+					r.arena = append(r.arena, d...)
+				}
+			}
+		}
+		r.arena0 = append([]byte(nil), r.arena...)
+	}
 	for _, k := range sc.Keys {
 		rs, _ := hex.DecodeString(k[0])
 		ds, _ := hex.DecodeString(k[1])
+		if sc.Arena {
+			// slices of the arena, with the capacity a plain slice expression gives them
+			a, b := place[k[0]], place[k[1]]
+			rs, ds = r.arena[a[0]:a[1]], r.arena[b[0]:b[1]]
+		}
 		r.keys = append(r.keys, [2][]byte{rs, ds})
+		r.keys0 = append(r.keys0, [2][]byte{append([]byte(nil), rs...), append([]byte(nil), ds...)})
 		h := newHashByName(sc.Hash)
 		h.Write(append(append([]byte(nil), rs...), ds...))
 		r.paths = append(r.paths, libCacheDir+"/"+hex.EncodeToString(h.Sum(nil)))
@@ -240,7 +323,7 @@ func (r *libRun) putFaults(op libOp, faults []simos.Fault, pl *simos.PowerLoss) 
 	body := op.Body.bytes()
 	spec := simos.ProcSpec{PowerLoss: pl, Faults: faults}
 	killed, pnc, p = r.inProc(spec, func() {
-		f, err := cache.CreateLevel(libCacheDir, r.h, append([]byte(nil), k[0]...), append([]byte(nil), k[1]...), op.Level)
+		f, err := cache.CreateLevel(libCacheDir, r.h, r.arg(k[0]), r.arg(k[1]), op.Level)
 		if f == nil {
 			return
 		}
@@ -314,8 +397,9 @@ func (r *libRun) check(ki int, mk func() *libScenario) (opened bool) {
 	k := r.keys[ki]
 	var oerr, rerr error
 	var got []byte
+	r.callerMemory("CreateLevel-Write-Close", mk)
 	_, pnc, _ := r.inProc(simos.ProcSpec{}, func() {
-		f, err := cache.Open(libCacheDir, r.h, append([]byte(nil), k[0]...), append([]byte(nil), k[1]...))
+		f, err := cache.Open(libCacheDir, r.h, r.arg(k[0]), r.arg(k[1]))
 		oerr = err
 		if err != nil {
 			if f != nil {
@@ -326,6 +410,7 @@ func (r *libRun) check(ki int, mk func() *libScenario) (opened bool) {
 		got, rerr = io.ReadAll(f)
 		f.Close()
 	})
+	r.callerMemory("Open", mk)
 	cur, exists := r.w.GetFile(r.paths[ki])
 	intact := -1
 	if exists {
